@@ -81,66 +81,103 @@ theorem walkLoop_unvisited (e : Env) (t : Nat) (fuel : Nat) (σ : St) (w : Walk)
           simp only [hc, hb, Bool.false_eq_true, if_false]
           exact hp
 
-/-- the resource was not available to the task at a working slot of an unlimited resource ⇒ the slot carries an entry -/
+theorem not_all_exists {α : Type} (l : List α) (p : α → Bool) (h : ¬ l.all p = true) : ∃ x ∈ l, p x = false := by
+  induction l with
+  | nil => exact absurd rfl h
+  | cons x xs ih =>
+    by_cases hx : p x = true
+    · have : ¬ xs.all p = true := by
+        intro hxs; apply h; simp only [List.all_cons, hx, hxs, Bool.and_self]
+      obtain ⟨y, hy, hpy⟩ := ih this
+      exact ⟨y, List.mem_cons_of_mem _ hy, hpy⟩
+    · exact ⟨x, List.mem_cons_self, by simpa using hx⟩
+
+/-- the resource was not available to the task at a working slot ⇒ the slot carries an entry, or a limit refused -/
 theorem gate_closed_has (e : Env) (wf : WF e) (σ : St) (t : Nat) (w : Walk) (r : Nat)
     (hinv : Inv e σ) (hs : Solid e σ) (hw : WalkOk e t w) (hin : WalkIn e w)
-    (hrl : resLimitIds e r = []) (htl : taskLimitIds e t = [])
     (hleaf : (e.resD r).leaf = true) (hon : e.onShift r w.cur = true) (hnl : e.leaveMark r w.cur = false)
-    (hg : gate e σ t w r = false) : Has r w.cur σ := by
+    (hg : gate e σ t w r = false) : Has r w.cur σ ∨ Exhausted e σ t r w.cur := by
   have hs1 : Solid e (reserveStep σ w r) := closed_reserveStep (solid_closed e wf) σ t w r hinv hw hin hs
   have hnorm : e.norm w.cur = w.cur := by unfold Env.norm; simp [Int.not_lt.mpr hin.cur_nonneg]
+  have hcnt : (reserveStep σ w r).cnt = σ.cnt := by unfold reserveStep; split <;> rfl
+  have hlim : ∀ lid ro, limitOk e (reserveStep σ w r) lid w.cur ro = limitOk e σ lid w.cur ro := by
+    intro lid ro; unfold limitOk; rw [hcnt]
   unfold gate at hg
-  have htl' : taskLimitsOk e (reserveStep σ w r) t w.cur r = true := by unfold taskLimitsOk; rw [htl]; rfl
-  rw [htl', Bool.and_true] at hg
-  unfold available at hg
-  simp only [hleaf, hon, hrl, List.all_nil, Bool.and_true, Bool.true_and, hnorm, hnl, Bool.or_false] at hg
-  unfold Has
-  rw [← reserveStep_get σ w r r w.cur]
-  by_cases ha : availSecs e.G ((reserveStep σ w r).led.get r w.cur) > 0
-  · simp only [ha, decide_true, Bool.true_and, Bool.not_eq_false', Bool.and_eq_true, decide_eq_true_eq] at hg
-    exact hs1.marked r w.cur hg.1
-  · intro hu
-    exact ha (hs1.room r w.cur hu)
+  by_cases htl : taskLimitsOk e (reserveStep σ w r) t w.cur r = true
+  · rw [htl, Bool.and_true] at hg
+    unfold available at hg
+    simp only [hleaf, hon, Bool.and_true, Bool.true_and, hnorm, hnl, Bool.or_false] at hg
+    by_cases hrl : (resLimitIds e r).all (fun lid => limitOk e (reserveStep σ w r) lid w.cur none) = true
+    · left
+      rw [hrl, Bool.and_true] at hg
+      unfold Has
+      rw [← reserveStep_get σ w r r w.cur]
+      by_cases ha : availSecs e.G ((reserveStep σ w r).led.get r w.cur) > 0
+      · simp only [ha, decide_true, Bool.true_and, Bool.not_eq_false', Bool.and_eq_true, decide_eq_true_eq] at hg
+        exact hs1.marked r w.cur hg.1
+      · intro hu
+        exact ha (hs1.room r w.cur hu)
+    · right; left
+      obtain ⟨lid, hmem, hno⟩ := not_all_exists _ _ hrl
+      refine ⟨lid, hmem, ?_⟩
+      unfold Refuses
+      rw [← hlim lid none]
+      exact hno
+  · right; right
+    unfold taskLimitsOk at htl
+    obtain ⟨lid, hmem, hno⟩ := not_all_exists _ _ htl
+    refine ⟨lid, hmem, ?_⟩
+    unfold Refuses
+    rw [← hlim lid (some r)]
+    exact hno
+
+theorem exhausted_closed_step {e : Env} {σ σ' : St} {t r : Nat} {i : Int}
+    (hstep : ∀ lid ro, Refuses e lid i ro σ → Refuses e lid i ro σ') (h : Exhausted e σ t r i) : Exhausted e σ' t r i := by
+  rcases h with ⟨lid, hm, hr⟩ | ⟨lid, hm, hr⟩
+  · exact Or.inl ⟨lid, hm, hstep lid none hr⟩
+  · exact Or.inr ⟨lid, hm, hstep lid (some r) hr⟩
 
 theorem usage_ne_nil_of_usageOf {u : List (Nat × Rat)} {t : Nat} (h : usageOf u t ≠ none) : u ≠ [] := by
   intro hu; rw [hu] at h; exact h rfl
 
-/-- **along the walk, in terms of the ledger it leaves**: every visited slot in which the unlimited resource is working carries
-    an entry when the walk ends — the task's own, or the one that made the resource unavailable -/
+/-- **along the walk, in terms of the ledger it leaves**: every visited slot in which the resource is working carries an entry
+    when the walk ends — the task's own, or the one that made the resource unavailable — unless a limit refuses the slot -/
 theorem walkLoop_no_idle_has (e : Env) (wf : WF e) (t r : Nat) (fuel : Nat) (σ : St) (w : Walk) (vis : List Int)
     (hinv : Inv e σ) (hs : Solid e σ) (hlf : (e.taskD t).leaf = true) (hw : WalkOk e t w) (hin : WalkIn e w)
     (ha : (e.taskD t).hasAlloc = true) (hm : (e.taskD t).milestone = false)
     (hsel : selectedOf e σ t w = [r]) (hlt : w.done < (e.taskD t).effort) (hpos : 0 < (e.taskD t).effort)
     (h : FInv e σ t r w vis) (hok : (walkLoop e t true fuel σ w).2.2 = true)
-    (hrl : resLimitIds e r = []) (htl : taskLimitIds e t = []) (hleaf : (e.resD r).leaf = true) :
+    (hleaf : (e.resD r).leaf = true) :
     ∀ p ∈ walkVisits e t fuel σ w, e.onShift r p.2.cur = true → e.leaveMark r p.2.cur = false →
-      Has r p.2.cur (walkLoop e t true fuel σ w).1 := by
+      Has r p.2.cur (walkLoop e t true fuel σ w).1 ∨ Exhausted e (walkLoop e t true fuel σ w).1 t r p.2.cur := by
   intro p hp hon hnl
   have hiff := walkLoop_no_idle e wf t r fuel σ w vis hinv hlf hw ha hm hsel hlt hpos h hok p hp
   by_cases hg : gate e p.1 t p.2 r = true
-  · exact usage_ne_nil_of_usageOf (hiff.mpr hg)
+  · exact Or.inl (usage_ne_nil_of_usageOf (hiff.mpr hg))
   · have hg' : gate e p.1 t p.2 r = false := by simpa using hg
     obtain ⟨hi1, hs1, hw1, hin1⟩ := walkVisits_inv e wf t fuel σ w hinv hs hlf hw hin p hp
-    have hhas := gate_closed_has e wf p.1 t p.2 r hi1 hs1 hw1 hin1 hrl htl hleaf hon hnl hg'
     obtain ⟨f', hf'⟩ := walkVisits_suffix e t fuel σ w p hp
     rw [hf']
-    exact closed_walkLoop (has_closed e r p.2.cur) wf t true f' p.1 p.2 hi1 hlf trivial hw1 hin1 hhas
+    rcases gate_closed_has e wf p.1 t p.2 r hi1 hs1 hw1 hin1 hleaf hon hnl hg' with hhas | hex
+    · exact Or.inl (closed_walkLoop (has_closed e r p.2.cur) wf t true f' p.1 p.2 hi1 hlf trivial hw1 hin1 hhas)
+    · exact Or.inr (exhausted_closed_step (fun lid ro hr =>
+        closed_walkLoop (refuses_closed e lid p.2.cur ro) wf t true f' p.1 p.2 hi1 hlf trivial hw1 hin1 hr) hex)
 
 end SP
 
 namespace SP
 
-/-- **one forward task, in terms of the ledger**: a successful `scheduleTask` of an effort task with the single selected,
-    unlimited resource `r` (no limits on the task either) leaves, between the slot of its dependency bound and ANY slot `L` it
-    is booked in, no working slot of `r` (on shift, no leave) without an entry -/
+/-- **one forward task, in terms of the ledger**: a successful `scheduleTask` of an effort task with the single selected
+    resource `r` leaves, between the slot of its dependency bound and ANY slot `L` it is booked in, no working slot of `r`
+    (on shift, no leave) without an entry — unless a limit of the resource or of the task refuses that slot -/
 theorem scheduleTask_no_idle_interval (e : Env) (wf : WF e) (σ : St) (t r : Nat)
     (hinv : Inv e σ) (hs : Solid e σ) (hel : Elig e t r) (hb : t < σ.ts.size) (hf : (σ.tst t).forward = true)
     (hnd : (σ.tst t).done = false) (hclean : ∀ i, usageOf (σ.led.get r i).usage t = none)
-    (hrl : resLimitIds e r = []) (htl : taskLimitIds e t = []) (hleaf : (e.resD r).leaf = true)
+    (hleaf : (e.resD r).leaf = true)
     (hok : (scheduleTask e σ t).2 = true) :
     ∀ L, usageOf ((scheduleTask e σ t).1.led.get r L).usage t ≠ none →
       ∀ i, (initCursor e σ t).1 ≤ i → i ≤ L → e.onShift r i = true → e.leaveMark r i = false →
-        Has r i (scheduleTask e σ t).1 := by
+        Has r i (scheduleTask e σ t).1 ∨ Exhausted e (scheduleTask e σ t).1 t r i := by
   have hpos := hel.effort
   have hpc : preStartCursor e σ t (initCursor e σ t).1 = (initCursor e σ t).1 := by
     unfold preStartCursor; simp [hel.alloc]
@@ -200,7 +237,7 @@ theorem scheduleTask_no_idle_interval (e : Env) (wf : WF e) (σ : St) (t r : Nat
           { cur := (initCursor e σ t).1, offset := (initCursor e σ t).2 })[(i - (initCursor e σ t).1).toNat]).2.cur = i := by
         rw [hjc]; omega
       have := walkLoop_no_idle_has e wf t r _ _ _ [] h0 hs0 hel.leaf hw hin hel.alloc hel.nomile hsel0 hpos hpos hfi hfin
-        hrl htl hleaf _ (List.getElem_mem hj) (by rw [hcur]; exact hon) (by rw [hcur]; exact hnl)
+        hleaf _ (List.getElem_mem hj) (by rw [hcur]; exact hon) (by rw [hcur]; exact hnl)
       rw [hcur] at this
       exact this
     · have hfin' : (walkLoop e t true (e.size.toNat + 3) (σ.setT t (σ.tst t))
